@@ -107,8 +107,13 @@ def ensureHasParent (layers : List VPath) (p : Str) : M Unit :=
   if '/' ∈ p then do
     let ex ← exists_ layers (parentInternal p)
     if ex then do
-      let wp ← M.ret (writePath layers (parentInternal p))
-      wp.createDirAll
+      -- the parent must be a directory of the merged view (a file cannot have children)
+      let rp ← readPath layers (parentInternal p)
+      let isd ← rp.isDir
+      if isd then do
+        let wp ← M.ret (writePath layers (parentInternal p))
+        wp.createDirAll
+      else M.failK .other
     else M.failK .other
   else M.failK .other
 
